@@ -288,8 +288,8 @@ Proof.
         eapply m_catch_frame; eauto. intro. eapply m_seq_frame; eauto.
     + (* Lam *) eapply m_seq_frame; eauto.
     + (* CallU *)
-      destruct (nth_error defs i) as [body|]; [| inv H; apply ext_refl].
-      destruct (m_seq (meval defs n ((true, fn_tag i) :: sc) tb) body VNil st) as [o st1] eqn:E.
+      destruct (nth_error defs i) as [[dc body]|]; [| inv H; apply ext_refl].
+      destruct (m_seq (meval defs n ((true, fn_tag i) :: dc ++ sc) tb) body VNil st) as [o st1] eqn:E.
       eapply m_catch_frame; eauto. intro. eapply m_seq_frame; eauto.
     + (* Unless *)
       destruct (meval defs n sc tb f st) as [o st1] eqn:E. destruct o; try solve [inv H; eapply IH; eauto].
@@ -448,7 +448,7 @@ Proof.
       destruct (s_seq (seval defs n (0%N :: bl) tg) res VNil st2) as [o3 st3] eqn:E3. cbn in *.
       eapply ext_trans; [eapply s_iter_frame; eauto with c07 | eapply s_seq_frame; eauto].
     + eapply s_seq_frame; eauto.
-    + destruct (nth_error defs i) as [body|]; [| inv H; apply ext_refl].
+    + destruct (nth_error defs i) as [[dc body]|]; [| inv H; apply ext_refl].
       eapply catch_frame; eauto. intros o1 Ho1 T1.
       destruct (s_seq (seval defs n [fn_tag i] []) body VNil st) as [o2 st2] eqn:E. cbn in *. subst.
       eapply s_seq_frame; eauto.
